@@ -26,7 +26,7 @@ func init() {
 	})
 }
 
-var c12Forms = append(append([]string{}, allCmds...), "variants-gff-samestart", "variants-dupfeat", "topranking-csv", "cli-o-rerun", "topa-dir-rerun")
+var c12Forms = append(append([]string{}, allCmds...), "variants-gff-samestart", "variants-dupfeat", "topranking-csv", "cli-o-rerun", "topa-dir-rerun", "second-call")
 
 var rerunForms = []string{"toma", "variants", "samvariants", "snps", "snps-agg", "closest", "closestn", "updownlist", "topranking"}
 
@@ -99,6 +99,18 @@ func genC12(r *Rand, tier string, ord int) *Trial {
 		}
 		cc.Opts.Args = append(cc.Opts.Args, "-o", "result.out")
 		t := &Trial{Kind: form, Case: *cc}
+		b := P0()
+		b.Explicit = true
+		t.Runs = append([]RunCfg{b}, genRunCfgs(r, 2)...)
+		return t
+	}
+	if form == "second-call" {
+		// repeated runs inside one process: the library command has already been called on another input
+		// (a program that loops over files); what that call left in package-level state must not show
+		f := rerunForms[r.Intn(len(rerunForms))]
+		c := genCmdCase(r, f, caseSize{})
+		c.Warm = genCmdCase(r, f, caseSize{})
+		t := &Trial{Kind: form, Case: *c}
 		b := P0()
 		b.Explicit = true
 		t.Runs = append([]RunCfg{b}, genRunCfgs(r, 2)...)
@@ -203,6 +215,29 @@ func checkC12(t *Trial, ctx *Ctx) *Failure {
 			if string(res.Files["result.out"]) != string(fresh.Files["result.out"]) {
 				t.Runs = []RunCfg{t.Runs[0], t.Runs[i]}
 				return &Failure{Class: "C12/output-file-depends-on-its-previous-content{cli}", Detail: fmt.Sprintf("gofasta %v\nthe same command and input written into an existing, longer --outfile leaves different bytes than written into a fresh one.\n%s", t.Case.Opts.Args, firstDiff(string(fresh.Files["result.out"]), string(res.Files["result.out"])))}
+			}
+		}
+		ctx.Nontrivial()
+		return nil
+	}
+	if t.Kind == "second-call" {
+		first := t.Case
+		first.Warm = nil
+		fresh := ctx.Run(t, 0, &first)
+		if fresh.Out.Kind != simrt.Returned || fresh.Err != nil {
+			ctx.Discard("the call in a fresh process did not succeed: " + firstLine(fresh.Describe()))
+			return nil
+		}
+		for i := 0; i < len(t.Runs); i++ {
+			res := ctx.Run(t, i, &t.Case)
+			desc := fmt.Sprintf("%s called after an earlier %s call on another input in the same process (run %d)", t.Case.Cmd, t.Case.Warm.Cmd, i)
+			if res.Out.Kind != simrt.Returned || res.Err != nil {
+				t.Runs = []RunCfg{t.Runs[0], t.Runs[i]}
+				return &Failure{Class: fmt.Sprintf("C12/second-call-fails{%s}", t.Case.Cmd), Detail: desc + " did not succeed although the same call in a fresh process does:\n" + res.Describe()}
+			}
+			if k := res.outputKey(); k != fresh.outputKey() {
+				t.Runs = []RunCfg{t.Runs[0], t.Runs[i]}
+				return &Failure{Class: fmt.Sprintf("C12/output-depends-on-earlier-call{%s}", t.Case.Cmd), Detail: desc + " wrote different bytes than the same call in a fresh process.\n" + firstDiff(fresh.outputKey(), k)}
 			}
 		}
 		ctx.Nontrivial()
